@@ -797,7 +797,7 @@ func main() {
 	w.Meta["race_mode"] = raceMode
 	w.Meta["fan_out_repetitions"] = reps
 	w.Meta["race_reports_with_lura_frames"] = raceReports
-	w.Close("regression corpus (GraphQL next to plain/filtered siblings, GET and POST endpoints, concurrent calls 2..3, mutation with invalid body) -> all ordered pairs of 14 backend shapes x concurrent_calls 1..2 x 2 client requests, all singles x cc 1..3 -> random endpoints of 1..4 backends with random filter lists (0..3 names), GraphQL options, methods, per-backend concurrent_calls 1..3, random client headers/query/params/body -> instance reuse: one factory-built endpoint proxy serving a sequence of 4..5 different requests (each step a case; corpus orders + random endpoints) and the same instance hit by 12 goroutines x 6 iterations over 4 distinct requests (one case per distinct request/observation); every scenario is run as fan-out (stub executors meet at a barrier) and per backend alone; nontrivial = more than one backend or concurrent_calls > 1", false)
+	w.Close("regression corpus (GraphQL next to plain/filtered siblings, GET and POST endpoints, concurrent calls 2..3, mutation with invalid body) -> all ordered pairs of 20 backend shapes (methods GET/HEAD/POST/PUT/OPTIONS/TRACE/PATCH/PURGE, lower and mixed case spellings) x concurrent_calls 1..2 x 2 client requests, all singles x cc 1..3 -> random endpoints of 1..4 backends with random filter lists (0..3 names), GraphQL options, methods, per-backend concurrent_calls 1..3, random client headers/query/params/body -> instance reuse: one factory-built endpoint proxy serving a sequence of 4..5 different requests (each step a case; corpus orders + random endpoints) and the same instance hit by 12 goroutines x 6 iterations over 4 distinct requests (one case per distinct request/observation); every scenario is run as fan-out (stub executors meet at a barrier) and per backend alone; nontrivial = more than one backend or concurrent_calls > 1", false)
 }
 
 func describe(bs []beSpec) string {
